@@ -1695,54 +1695,660 @@ def extract_c02():
     return "\n".join(L) + "\n"
 
 
+# ---------------------------------------------------------------------------
+# PyIR: method BODIES as data (translation validation, lean/WV/Model/PyIR.lean)
+
+# (module, class, plain methods translated in addition to every @m.output and to the plain siblings they call;
+#  None = outputs + their helpers only)
+PYIR_TARGETS = [
+    ("wormhole._mailbox", "Mailbox", ["rx_message"]),
+    ("wormhole._order", "Order", ["got_message"]),
+    ("wormhole._send", "Send", []),
+    ("wormhole._receive", "Receive", ["got_message"]),
+    ("wormhole._boss", "Boss", ["got_message"]),
+    ("wormhole._nameplate", "Nameplate", []),
+    ("wormhole._terminator", "Terminator", []),
+    ("wormhole._allocator", "Allocator", []),
+    ("wormhole._lister", "Lister", []),
+    ("wormhole._code", "Code", []),
+    ("wormhole._key", "Key", []),
+    ("wormhole._key", "_SortedKey", []),
+]
+
+_PYIR_ISINSTANCE = {"str", "bytes", "int", "bool", "dict", "tuple", "list", "set"}
+_PYIR_INIT_METHODS = ("__attrs_post_init__", "__init__", "_init_other_state")
+
+
+class _Untranslatable(Exception):
+    pass
+
+
+def _pyir_src(node):
+    try:
+        return ast.unparse(node)
+    except Exception:  # pragma: no cover
+        return type(node).__name__
+
+
+def _lean_opt_str(x):
+    return "none" if x is None else "(some %s)" % lean_str(x)
+
+
+class _PyIR:
+    """translates one method of one class; every construct outside the subset raises _Untranslatable(construct)"""
+
+    def __init__(self, module, klass, kinds, data_attrs, fn):
+        self.module = module
+        self.klass = klass
+        self.kinds = kinds              # method name -> "output" | "input" | "state" | "plain"
+        self.data_attrs = data_attrs    # attributes created as {} / [] / set() by the constructor
+        self.fn = fn
+        a = fn.args
+        if a.vararg or a.kwarg or a.kwonlyargs or a.defaults or a.kw_defaults or a.posonlyargs:
+            raise _Untranslatable("parameter list with defaults/*args/**kwargs")
+        names = [x.arg for x in a.args]
+        if not names or names[0] != "self":
+            raise _Untranslatable("not an instance method")
+        self.params = names[1:]
+        self.locals = set(self.params)
+        for n in ast.walk(fn):
+            if isinstance(n, ast.Name) and isinstance(n.ctx, (ast.Store, ast.Del)):
+                self.locals.add(n.id)
+            if isinstance(n, (ast.FunctionDef, ast.Lambda, ast.AsyncFunctionDef)) and n is not fn:
+                raise _Untranslatable("nested function")
+            if isinstance(n, ast.ExceptHandler) and n.name:
+                self.locals.add(n.name)
+        self.match_vars = set()
+        self.ntemp = 0
+        self.sibling_calls = set()
+
+    # ---- expressions (pure) ----
+    def is_self_attr(self, n):
+        return isinstance(n, ast.Attribute) and isinstance(n.value, ast.Name) and n.value.id == "self"
+
+    def exprs(self, nodes):
+        return "[" + ", ".join(self.expr(n) for n in nodes) + "]"
+
+    def expr(self, n):
+        if isinstance(n, ast.Constant):
+            v = n.value
+            if v is None:
+                return ".none"
+            if v is True or v is False:
+                return "(.bool %s)" % ("true" if v else "false")
+            if isinstance(v, int) and v >= 0:
+                return "(.int %d)" % v
+            if isinstance(v, str):
+                return "(.str %s)" % lean_str(v)
+            if isinstance(v, bytes):
+                return "(.bytes %s)" % lean_bytes(v)
+            raise _Untranslatable("constant " + repr(v))
+        if isinstance(n, ast.Name):
+            if n.id in self.locals:
+                return "(.var %s)" % lean_str(n.id)
+            raise _Untranslatable("global name used as a value: " + n.id)
+        if self.is_self_attr(n):
+            return "(.attr %s)" % lean_str(n.attr)
+        if isinstance(n, ast.Subscript) and not isinstance(n.slice, ast.Slice):
+            return "(.index %s %s)" % (self.expr(n.value), self.expr(n.slice))
+        if isinstance(n, ast.Compare):
+            if len(n.ops) != 1:
+                raise _Untranslatable("chained comparison")
+            op, a, b = n.ops[0], n.left, n.comparators[0]
+            if isinstance(op, (ast.Is, ast.IsNot)):
+                if isinstance(b, ast.Constant) and b.value is None:
+                    return "(.%s %s)" % ("isNone" if isinstance(op, ast.Is) else "isNotNone", self.expr(a))
+                raise _Untranslatable("`is` with something other than None")
+            tag = {ast.Eq: "eq", ast.NotEq: "ne", ast.In: "isIn", ast.NotIn: "notIn", ast.Lt: "lt"}.get(type(op))
+            if tag is None:
+                raise _Untranslatable("comparison " + type(op).__name__)
+            return "(.%s %s %s)" % (tag, self.expr(a), self.expr(b))
+        if isinstance(n, ast.BoolOp):
+            tag = "and" if isinstance(n.op, ast.And) else "or"
+            out = self.expr(n.values[-1])
+            for v in reversed(n.values[:-1]):
+                out = "(.%s %s %s)" % (tag, self.expr(v), out)
+            return out
+        if isinstance(n, ast.UnaryOp) and isinstance(n.op, ast.Not):
+            return "(.not %s)" % self.expr(n.operand)
+        if isinstance(n, ast.BinOp) and isinstance(n.op, ast.Add):
+            return "(.add %s %s)" % (self.expr(n.left), self.expr(n.right))
+        if isinstance(n, ast.BinOp) and isinstance(n.op, ast.Mod) and isinstance(n.left, ast.Constant) \
+                and n.left.value == "%d" and not isinstance(n.right, ast.Tuple):
+            return "(.fmtD %s)" % self.expr(n.right)
+        if isinstance(n, ast.Tuple):
+            return "(.tuple %s)" % self.exprs(n.elts)
+        if isinstance(n, ast.Dict) and not n.keys:
+            return ".emptyDict"
+        if isinstance(n, ast.List) and not n.elts:
+            return ".emptyList"
+        if isinstance(n, ast.JoinedStr):
+            tmpl, args = [], []
+            for part in n.values:
+                if isinstance(part, ast.Constant):
+                    tmpl.append(part.value.replace("{", "{{").replace("}", "}}"))
+                elif isinstance(part, ast.FormattedValue) and part.conversion == -1 and part.format_spec is None:
+                    tmpl.append("{}")
+                    args.append(part.value)
+                else:
+                    raise _Untranslatable("f-string with conversion/format spec")
+            return "(.call %s %s)" % (lean_str('f"' + "".join(tmpl) + '"'), self.exprs(args))
+        if isinstance(n, ast.Call):
+            return self.call_expr(n)
+        raise _Untranslatable(type(n).__name__ + ": " + _pyir_src(n))
+
+    def call_expr(self, n):
+        if n.keywords:
+            raise _Untranslatable("keyword arguments: " + _pyir_src(n))
+        for a in n.args:
+            if isinstance(a, ast.Starred):
+                raise _Untranslatable("*args: " + _pyir_src(n))
+        f = n.func
+        if isinstance(f, ast.Name):
+            if f.id in self.locals:
+                raise _Untranslatable("call of a local: " + _pyir_src(n))
+            if f.id == "len" and len(n.args) == 1:
+                return "(.len %s)" % self.expr(n.args[0])
+            if f.id == "isinstance" and len(n.args) == 2:
+                t = n.args[1]
+                if isinstance(t, ast.Name) and t.id in _PYIR_ISINSTANCE:
+                    return "(.isinstance %s %s)" % (self.expr(n.args[0]), lean_str(t.id))
+                raise _Untranslatable("isinstance against " + _pyir_src(t))
+            if f.id == "set" and not n.args:
+                return ".emptySet"
+            if f.id == "dict" and not n.args:
+                return ".emptyDict"
+            if f.id == "list" and not n.args:
+                return ".emptyList"
+            if f.id in ("getattr", "setattr", "hasattr", "print", "eval", "exec", "type", "iter", "next", "super"):
+                raise _Untranslatable("builtin " + f.id)
+            obj = getattr(self.module, f.id, None)
+            if inspect.isclass(obj):
+                if issubclass(obj, BaseException):
+                    return "(.construct %s %s)" % (lean_str(f.id), self.exprs(n.args))
+                if obj in (int, str, bytes, bool):
+                    pass
+                else:
+                    raise _Untranslatable("constructor of a non-exception class: " + f.id)
+            # a module-level function (or int/str/bytes): external, pure, meaning given by the interpreter's Env
+            return "(.call %s %s)" % (lean_str(f.id), self.exprs(n.args))
+        if isinstance(f, ast.Attribute):
+            # re.search(pattern, s)
+            if isinstance(f.value, ast.Name) and f.value.id == "re" and "re" not in self.locals and f.attr == "search":
+                return "(.call \"re.search\" %s)" % self.exprs(n.args)
+            # <match object>.group(k)  ==  k-th element of the tuple of groups that Env's re.search returns
+            if isinstance(f.value, ast.Name) and f.value.id in self.match_vars and f.attr == "group" \
+                    and len(n.args) == 1 and isinstance(n.args[0], ast.Constant) and isinstance(n.args[0].value, int):
+                return "(.index (.var %s) (.int %d))" % (lean_str(f.value.id), n.args[0].value)
+            if f.attr == "items" and not n.args:
+                return "(.items %s)" % self.expr(f.value)
+            if f.attr == "get" and len(n.args) in (1, 2) and (
+                    (isinstance(f.value, ast.Name) and f.value.id in self.locals) or self.is_self_attr(f.value)):
+                # `<dict>.get(k[, default])`: pure; its meaning is Env's "dict.get"
+                args = [f.value] + list(n.args) + ([] if len(n.args) == 2 else [ast.Constant(None)])
+                return "(.call \"dict.get\" %s)" % self.exprs(args)
+        raise _Untranslatable("call in expression position: " + _pyir_src(n))
+
+    # ---- effectful calls ----
+    def data_call(self, n):
+        """self.<data attr>.<mutator>(...) -> (kind, attr, args) or None"""
+        if isinstance(n, ast.Call) and isinstance(n.func, ast.Attribute) and self.is_self_attr(n.func.value) \
+                and n.func.value.attr in self.data_attrs and not n.keywords:
+            return n.func.attr, n.func.value.attr, n.args
+        return None
+
+    def pop_like(self, n, target):
+        """`[target =] self.<a>.pop(k) | .pop(k, None) | .popleft()` as a statement, or None"""
+        dc = self.data_call(n)
+        if dc is None:
+            return None
+        kind, a, args = dc
+        t = _lean_opt_str(target)
+        if kind == "pop" and len(args) == 1:
+            return ".pop %s %s %s" % (t, lean_str(a), self.expr(args[0]))
+        if kind == "pop" and len(args) == 2 and isinstance(args[1], ast.Constant) and args[1].value is None:
+            return ".popDefault %s %s %s" % (t, lean_str(a), self.expr(args[0]))
+        if kind == "popleft" and not args:
+            return ".popleft %s %s" % (t, lean_str(a))
+        return None
+
+    def args_with_hoist(self, args, out):
+        """argument list of a recorded call; an effectful `self.<a>.pop(k)` among the arguments is hoisted into a
+        temporary in front of the statement — only if everything evaluated before it is a constant or a local"""
+        res = []
+        for i, a in enumerate(args):
+            if isinstance(a, ast.Starred):
+                raise _Untranslatable("*args")
+            if self.data_call(a) is not None:
+                if not all(isinstance(b, (ast.Constant, ast.Name)) for b in args[:i]):
+                    raise _Untranslatable("effectful argument after a non-trivial one: " + _pyir_src(a))
+                tmp = "$%d" % self.ntemp
+                self.ntemp += 1
+                st = self.pop_like(a, tmp)
+                if st is None:
+                    raise _Untranslatable("effectful argument: " + _pyir_src(a))
+                out.append(st)
+                self.locals.add(tmp)
+                res.append("(.var %s)" % lean_str(tmp))
+            else:
+                res.append(self.expr(a))
+        return "[" + ", ".join(res) + "]"
+
+    def call_stmt(self, n, target, out):
+        """a call evaluated for its effect (`target` = local that receives the value, or None)"""
+        if n.keywords:
+            raise _Untranslatable("keyword arguments: " + _pyir_src(n))
+        f = n.func
+        pl = self.pop_like(n, target)
+        if pl is not None:
+            out.append(pl)
+            return
+        dc = self.data_call(n)
+        if dc is not None:
+            kind, a, args = dc
+            if target is None and kind == "add" and len(args) == 1:
+                out.append(".setAdd %s %s" % (lean_str(a), self.expr(args[0])))
+                return
+            if target is None and kind == "append" and len(args) == 1:
+                out.append(".append %s %s" % (lean_str(a), self.expr(args[0])))
+                return
+            raise _Untranslatable("container method: " + _pyir_src(n))
+        if isinstance(f, ast.Attribute) and self.is_self_attr(f.value) and target is None:
+            # self._X.meth(args): a collaborator
+            pre = []
+            args = self.args_with_hoist(n.args, pre)
+            if pre:
+                # CPython looks the collaborator up before it evaluates the (hoisted) argument
+                out.append(".assign \"$recv\" (.attr %s)" % lean_str(f.value.attr))
+                self.locals.add("$recv")
+            out.extend(pre)
+            out.append(".emit %s %s %s" % (lean_str(f.value.attr), lean_str(f.attr), args))
+            return
+        if self.is_self_attr(f):
+            kind = self.kinds.get(f.attr)
+            if kind == "input" and target is None:
+                pre = []
+                args = self.args_with_hoist(n.args, pre)
+                out.extend(pre)
+                out.append(".emitG \"self\" %s %s" % (lean_str(f.attr), args))
+                return
+            if kind == "plain":
+                pre = []
+                args = self.args_with_hoist(n.args, pre)
+                out.extend(pre)
+                self.sibling_calls.add(f.attr)
+                out.append(".callSelf %s %s %s" % (_lean_opt_str(target), lean_str(f.attr), args))
+                return
+            raise _Untranslatable("call of self.%s (%s)" % (f.attr, kind))
+        if isinstance(f, ast.Attribute) and isinstance(f.value, ast.Name) and f.value.id == "log" \
+                and "log" not in self.locals and target is None:
+            out.append(".emitG \"log\" %s %s" % (lean_str(f.attr), self.exprs(n.args)))
+            return
+        raise _Untranslatable("call statement: " + _pyir_src(n))
+
+    # ---- statements ----
+    def block(self, stmts):
+        out = []
+        for s in stmts:
+            self.stmt(s, out)
+        return "[" + ", ".join(out) + "]"
+
+    def assert_msg_ok(self, m):
+        if m is None:
+            return True
+        if isinstance(m, ast.Tuple):
+            return all(self.assert_msg_ok(e) for e in m.elts)
+        if isinstance(m, ast.Call) and isinstance(m.func, ast.Name) and m.func.id == "type" and len(m.args) == 1:
+            return self.assert_msg_ok(m.args[0])
+        return isinstance(m, ast.Constant) or (isinstance(m, ast.Name) and m.id in self.params)
+
+    def mutated_attrs(self, stmts, seen=()):
+        """data attributes that a block may change (directly, or through plain sibling methods)"""
+        res = set()
+        for s in stmts:
+            for n in ast.walk(s):
+                if isinstance(n, (ast.Assign, ast.AugAssign, ast.Delete)):
+                    tgts = n.targets if isinstance(n, (ast.Assign, ast.Delete)) else [n.target]
+                    for t in tgts:
+                        while isinstance(t, ast.Subscript):
+                            t = t.value
+                        if self.is_self_attr(t):
+                            res.add(t.attr)
+                dc = self.data_call(n) if isinstance(n, ast.Call) else None
+                if dc is not None and dc[0] != "get" and dc[0] != "items":
+                    res.add(dc[1])
+                if isinstance(n, ast.Call) and self.is_self_attr(n.func) and self.kinds.get(n.func.attr) == "plain" \
+                        and n.func.attr not in seen:
+                    callee = self.klass_funcs.get(n.func.attr)
+                    if callee is None:
+                        res.add("*")
+                    else:
+                        res |= self.mutated_attrs(callee.body, tuple(seen) + (n.func.attr,))
+        return res
+
+    def stmt(self, s, out):
+        if isinstance(s, ast.Expr):
+            if isinstance(s.value, ast.Constant) and isinstance(s.value.value, str):
+                return   # docstring
+            if isinstance(s.value, ast.Call):
+                self.call_stmt(s.value, None, out)
+                return
+            raise _Untranslatable("expression statement: " + _pyir_src(s))
+        if isinstance(s, ast.Assign):
+            if len(s.targets) != 1:
+                raise _Untranslatable("chained assignment")
+            t = s.targets[0]
+            if self.is_self_attr(t):
+                out.append(".setAttr %s %s" % (lean_str(t.attr), self.expr(s.value)))
+                return
+            if isinstance(t, ast.Name):
+                v = s.value
+                if isinstance(v, ast.Call) and (self.data_call(v) is not None
+                                                or (self.is_self_attr(v.func) and self.kinds.get(v.func.attr) == "plain")):
+                    self.call_stmt(v, t.id, out)
+                    return
+                if isinstance(v, ast.Call) and isinstance(v.func, ast.Attribute) and isinstance(v.func.value, ast.Name) \
+                        and v.func.value.id == "re" and v.func.attr == "search":
+                    self.match_vars.add(t.id)
+                elif t.id in self.match_vars:
+                    raise _Untranslatable("match variable re-assigned")
+                out.append(".assign %s %s" % (lean_str(t.id), self.expr(v)))
+                return
+            if isinstance(t, ast.Subscript) and self.is_self_attr(t.value):
+                a = t.value.attr
+                if isinstance(t.slice, ast.Slice):
+                    sl = t.slice
+                    if sl.lower is None and sl.upper is None and sl.step is None and isinstance(s.value, ast.List) \
+                            and not s.value.elts:
+                        out.append(".clear %s" % lean_str(a))
+                        return
+                    raise _Untranslatable("slice assignment: " + _pyir_src(s))
+                out.append(".setItem %s %s %s" % (lean_str(a), self.expr(t.slice), self.expr(s.value)))
+                return
+            raise _Untranslatable("assignment target: " + _pyir_src(t))
+        if isinstance(s, ast.AugAssign):
+            if not isinstance(s.op, ast.Add):
+                raise _Untranslatable("augmented assignment " + type(s.op).__name__)
+            if self.is_self_attr(s.target):
+                out.append(".augAttr %s %s" % (lean_str(s.target.attr), self.expr(s.value)))
+                return
+            if isinstance(s.target, ast.Name):
+                out.append(".augLocal %s %s" % (lean_str(s.target.id), self.expr(s.value)))
+                return
+            raise _Untranslatable("augmented assignment target")
+        if isinstance(s, ast.Assert):
+            if not self.assert_msg_ok(s.msg):
+                raise _Untranslatable("assert message: " + _pyir_src(s.msg))
+            out.append(".assert %s" % self.expr(s.test))
+            return
+        if isinstance(s, ast.If):
+            out.append(".ite %s %s %s" % (self.expr(s.test), self.block(s.body), self.block(s.orelse)))
+            return
+        if isinstance(s, ast.While):
+            if s.orelse:
+                raise _Untranslatable("while/else")
+            out.append(".while %s %s" % (self.expr(s.test), self.block(s.body)))
+            return
+        if isinstance(s, ast.For):
+            if s.orelse:
+                raise _Untranslatable("for/else")
+            if isinstance(s.target, ast.Name):
+                pat = "(.one %s)" % lean_str(s.target.id)
+            elif isinstance(s.target, ast.Tuple) and all(isinstance(e, ast.Name) for e in s.target.elts):
+                pat = "(.tup [%s])" % ", ".join(lean_str(e.id) for e in s.target.elts)
+            else:
+                raise _Untranslatable("loop target: " + _pyir_src(s.target))
+            it = s.iter
+            base = it.func.value if (isinstance(it, ast.Call) and isinstance(it.func, ast.Attribute)
+                                     and it.func.attr == "items" and not it.args) else it
+            if not self.is_self_attr(base):
+                raise _Untranslatable("loop over something other than self.<attr>[.items()]: " + _pyir_src(it))
+            mut = self.mutated_attrs(s.body)
+            if base.attr in mut or "*" in mut:
+                raise _Untranslatable("loop body mutates the iterated attribute self.%s" % base.attr)
+            out.append(".forIn %s %s %s" % (pat, self.expr(it), self.block(s.body)))
+            return
+        if isinstance(s, ast.Try):
+            if s.orelse or s.finalbody or len(s.handlers) != 1:
+                raise _Untranslatable("try with else/finally/several handlers")
+            h = s.handlers[0]
+            if not isinstance(h.type, ast.Name):
+                raise _Untranslatable("except clause: " + _pyir_src(h.type) if h.type else "bare except")
+            out.append(".tryExcept %s %s %s %s" % (self.block(s.body), lean_str(h.type.id), _lean_opt_str(h.name),
+                                                  self.block(h.body)))
+            return
+        if isinstance(s, ast.Return):
+            out.append(".ret none" if s.value is None else ".ret (some %s)" % self.expr(s.value))
+            return
+        if isinstance(s, ast.Raise):
+            if s.cause is not None or s.exc is None:
+                raise _Untranslatable("raise … from / bare raise")
+            e = s.exc
+            if isinstance(e, ast.Call) and isinstance(e.func, ast.Name) and not e.keywords:
+                out.append(".raise %s %s" % (lean_str(e.func.id), self.exprs(e.args)))
+                return
+            if isinstance(e, ast.Name) and e.id not in self.locals:
+                out.append(".raise %s []" % lean_str(e.id))
+                return
+            raise _Untranslatable("raise of " + _pyir_src(e))
+        if isinstance(s, ast.Pass):
+            out.append(".pass")
+            return
+        if isinstance(s, ast.Delete):
+            for t in s.targets:
+                if not isinstance(t, ast.Name):
+                    raise _Untranslatable("del of " + _pyir_src(t))
+                out.append(".del %s" % lean_str(t.id))
+            return
+        raise _Untranslatable(type(s).__name__ + " statement")
+
+
+def _pyir_class(module_name, cls_name, extra):
+    """-> (translated: {name: (params, body_lean)}, untranslatable: {name: construct})"""
+    mod = importlib.import_module(module_name)
+    klass = getattr(mod, cls_name)
+    kinds, funcs = {}, {}
+    for name, member in vars(klass).items():
+        f = member
+        kind = "plain"
+        if hasattr(f, "method") and callable(getattr(f, "method")):
+            kind = {"MethodicalInput": "input", "MethodicalState": "state", "MethodicalOutput": "output"}.get(
+                type(f).__name__, "other")
+            f = f.method
+        if not inspect.isfunction(f):
+            continue
+        kinds[name] = kind
+        try:
+            funcs[name] = ast.parse(textwrap.dedent(inspect.getsource(f))).body[0]
+        except Exception:  # pragma: no cover
+            pass
+    # data attributes: created as an empty container by the constructor
+    data_attrs = set()
+    for init in _PYIR_INIT_METHODS:
+        fn = funcs.get(init)
+        if fn is None:
+            continue
+        for n in ast.walk(fn):
+            if isinstance(n, ast.Assign) and len(n.targets) == 1:
+                t, v = n.targets[0], n.value
+                if isinstance(t, ast.Attribute) and isinstance(t.value, ast.Name) and t.value.id == "self":
+                    if (isinstance(v, ast.Dict) and not v.keys) or (isinstance(v, ast.List) and not v.elts) or (
+                            isinstance(v, ast.Call) and isinstance(v.func, ast.Name)
+                            and v.func.id in ("set", "dict", "list", "deque") and not v.args):
+                        data_attrs.add(t.attr)
+    todo = sorted(n for n, k in kinds.items() if k == "output") + list(extra or [])
+    done, bad = {}, {}
+    while todo:
+        name = todo.pop(0)
+        if name in done or name in bad:
+            continue
+        fn = funcs.get(name)
+        if fn is None:
+            bad[name] = "source not available"
+            continue
+        try:
+            tr = _PyIR(mod, klass, kinds, data_attrs, fn)
+            tr.klass_funcs = funcs
+            body = tr.block(fn.body)
+            done[name] = (tr.params, body)
+            for callee in sorted(tr.sibling_calls):
+                if callee not in done and callee not in bad:
+                    todo.append(callee)
+        except _Untranslatable as e:
+            bad[name] = str(e)
+    # a method that calls an untranslatable sibling is itself untranslatable (the interpreter could not look it up)
+    changed = True
+    while changed:
+        changed = False
+        for name in sorted(done):
+            fn = funcs[name]
+            for n in ast.walk(fn):
+                if isinstance(n, ast.Call) and isinstance(n.func, ast.Attribute) and isinstance(n.func.value, ast.Name) \
+                        and n.func.value.id == "self" and n.func.attr in bad and kinds.get(n.func.attr) == "plain":
+                    bad[name] = "calls untranslatable self.%s" % n.func.attr
+                    del done[name]
+                    changed = True
+                    break
+            if changed:
+                break
+    return done, bad
+
+
+def extract_pyir(targets=None):
+    """Lean data: the bodies of the configured methods in the IR of WV/Model/PyIR.lean"""
+    L = ["import WV.Model.PyIR",
+         "namespace WV.Gen.PyIR",
+         "open WV.PyIR",
+         ""]
+    all_done, all_bad, classes = [], [], []
+    for module, cls, extra in (targets or PYIR_TARGETS):
+        try:
+            done, bad = _pyir_class(module, cls, extra)
+        except Exception as e:
+            all_bad.append((cls, "class not translatable: %s" % type(e).__name__))
+            continue
+        cid = cls.lstrip("_")
+        classes.append((cls, cid, done))
+        for name in sorted(done):
+            params, body = done[name]
+            L.append("def %s : List String × List Stmt :=" % ident("m_%s_%s" % (cid, name)))
+            L.append("  ([%s]," % ", ".join(lean_str(p) for p in params))
+            L.append("   %s)" % body)
+            all_done.append((cls, cid, name))
+        for name in sorted(bad):
+            all_bad.append(("%s.%s" % (cls, name), bad[name]))
+    L.append("")
+    L.append("/-- per class: the plain and output methods by name (what `self.<meth>(…)` resolves to) -/")
+    for cls, cid, done in classes:
+        L.append("def %s : MethodTable" % ident("tbl_" + cid))
+        for name in sorted(done):
+            L.append("  | %s => some %s" % (lean_str(name), ident("m_%s_%s" % (cid, name))))
+        L.append("  | _ => none")
+    L.append("")
+    L.append("/-- parameter names and body of `Class.method`, translated from the working tree -/")
+    L.append("def body : String → Option (List String × List Stmt)")
+    for cls, cid, name in all_done:
+        L.append("  | %s => some %s" % (lean_str("%s.%s" % (cls, name)), ident("m_%s_%s" % (cid, name))))
+    L.append("  | _ => none")
+    L.append("")
+    L.append("def translated : List String := [%s]" % ", ".join(lean_str("%s.%s" % (c, n)) for c, _, n in all_done))
+    L.append("")
+    L.append("/-- methods with a construct outside the subset, and the construct -/")
+    L.append("def untranslatable : List (String × String) := [%s]" % ", ".join(
+        "(%s, %s)" % (lean_str(k), lean_str(v)) for k, v in all_bad))
+    L.append("end WV.Gen.PyIR")
+    return "\n".join(L) + "\n", len(all_done), all_bad
+
+
+BASELINE = os.path.join(HERE, "gen_baseline")
+
+
 def main():
+    """Every generated module is translated on its own.  A section the translator cannot translate any more (the source
+    was rewritten into a shape it does not know: a method it parses is gone, a class moved, …) keeps the last generated
+    text of that module (or, on a fresh checkout, the baseline text committed under tools/gen_baseline, which is the
+    translation of the pinned tree) and is NAMED in WV/Gen/Failed.lean; `WV.Props.Common.translator_covers_everything`
+    demands that list to be empty, so an untranslatable tree is a broken proof obligation of every property (and the
+    failing-input search runs), never an infrastructure error and never silently stale."""
     changed = []
-    machines = [dump_machine(*m) for m in MACHINES]
+    failed = []
     hdr = "/- GENERATED by tools/extract.py from the /repo working tree. Do not edit. -/\n"
-    for m in machines:
-        body = hdr + "namespace WV.Gen\n" + lean_machine(m) + "end WV.Gen\n"
-        if write_if_changed(os.path.join(GEN, "T_%s.lean" % m["ns"]), body):
-            changed.append("T_" + m["ns"])
-    body = hdr + "".join("import WV.Gen.T_%s\n" % m["ns"] for m in machines)
-    if write_if_changed(os.path.join(GEN, "Tables.lean"), body):
-        changed.append("Tables")
-    if write_if_changed(os.path.join(GEN, "Consts.lean"), hdr + extract_consts()):
-        changed.append("Consts")
-    if write_if_changed(os.path.join(GEN, "Words.lean"), hdr + extract_words()):
-        changed.append("Words")
-    sk = extract_skeletons()
-    if write_if_changed(os.path.join(GEN, "Skel.lean"), hdr + lean_skeletons(sk)):
-        changed.append("Skel")
-    if write_if_changed(os.path.join(GEN, "ApiSkel.lean"),
-                        hdr + lean_skeletons(extract_skeletons(API_SKELETON_TARGETS), "WV.Gen.ApiSkel")):
-        changed.append("ApiSkel")
-    fl = extract_flags()
-    if write_if_changed(os.path.join(GEN, "Flags.lean"), hdr + lean_flags(fl)):
-        changed.append("Flags")
-    _as, _nt = extract_asserts()
-    if write_if_changed(os.path.join(GEN, "Asserts.lean"), hdr + lean_asserts(_as, _nt)):
-        changed.append("Asserts")
-    if write_if_changed(os.path.join(GEN, "Shared.lean"), hdr + lean_shared_state(extract_shared_state())):
-        changed.append("Shared")
-    if write_if_changed(os.path.join(GEN, "Recv.lean"), hdr + extract_recv()):
-        changed.append("Recv")
-    hg = extract_hint_guards()
-    if write_if_changed(os.path.join(GEN, "HintGuards.lean"), hdr + lean_hint_guards(hg)):
-        changed.append("HintGuards")
-    if write_if_changed(os.path.join(GEN, "C06.lean"), hdr + extract_c06()):
-        changed.append("C06")
-    if write_if_changed(os.path.join(GEN, "Transit.lean"), hdr + extract_transit()):
-        changed.append("Transit")
-    if write_if_changed(os.path.join(GEN, "C02.lean"), hdr + extract_c02()):
-        changed.append("C02")
+    state = {}
+
+    def section(name, produce):
+        path = os.path.join(GEN, name + ".lean")
+        try:
+            body = produce()
+        except Exception as e:
+            import traceback
+            failed.append((name, "%s: %s" % (type(e).__name__, str(e)[:200]), traceback.format_exc()[-1500:]))
+            if not os.path.exists(path):
+                base = os.path.join(BASELINE, name + ".lean")
+                if os.path.exists(base):
+                    with open(base) as f:
+                        write_if_changed(path, f.read())
+            return
+        if write_if_changed(path, body):
+            changed.append(name)
+
+    machines = []
+    for m in MACHINES:
+        def one(m=m):
+            d = dump_machine(*m)
+            machines.append(d)
+            return hdr + "namespace WV.Gen\n" + lean_machine(d) + "end WV.Gen\n"
+        section("T_%s" % m[0], one)
+    section("Tables", lambda: hdr + "".join("import WV.Gen.T_%s\n" % m[0] for m in MACHINES))
+    section("Consts", lambda: hdr + extract_consts())
+    section("Words", lambda: hdr + extract_words())
+
+    def skel():
+        state["sk"] = extract_skeletons()
+        return hdr + lean_skeletons(state["sk"])
+    section("Skel", skel)
+    section("ApiSkel", lambda: hdr + lean_skeletons(extract_skeletons(API_SKELETON_TARGETS), "WV.Gen.ApiSkel"))
+
+    def flags():
+        state["fl"] = extract_flags()
+        return hdr + lean_flags(state["fl"])
+    section("Flags", flags)
+
+    def asserts():
+        _as, _nt = extract_asserts()
+        return hdr + lean_asserts(_as, _nt)
+    section("Asserts", asserts)
+    section("Shared", lambda: hdr + lean_shared_state(extract_shared_state()))
+    section("Recv", lambda: hdr + extract_recv())
+    section("HintGuards", lambda: hdr + lean_hint_guards(extract_hint_guards()))
+    section("C06", lambda: hdr + extract_c06())
+    section("Transit", lambda: hdr + extract_transit())
+    section("C02", lambda: hdr + extract_c02())
+
+    def pyir():
+        text, n, bad = extract_pyir()
+        state["pyir_n"], state["pyir_bad"] = n, bad
+        return hdr + text
+    section("PyIR", pyir)
+    L = [hdr + "namespace WV.Gen.Failed",
+         "/-- generated modules the translator could NOT regenerate from the working tree in this run (they still hold their",
+         "    previous / baseline text), with the reason -/",
+         "def failed : List (String × String) := [" + ", ".join("(%s, %s)" % (lean_str(n), lean_str(w)) for n, w, _ in failed) + "]",
+         "end WV.Gen.Failed"]
+    if write_if_changed(os.path.join(GEN, "Failed.lean"), "\n".join(L) + "\n"):
+        changed.append("Failed")
     summary = {
         "machines": len(machines),
         "transitions": sum(len(m["rows"]) for m in machines),
-        "skeleton_methods": len(sk),
-        "flags": fl,
+        "skeleton_methods": len(state.get("sk", [])),
+        "flags": state.get("fl", {}),
         "changed": changed,
+        "pyir_methods": state.get("pyir_n", 0),
+        "pyir_untranslatable": [k for k, _ in state.get("pyir_bad", [])],
+        "failed_sections": [[n, w] for n, w, _ in failed],
     }
     write_if_changed(os.path.join(GEN, "summary.json"), json.dumps(summary, indent=1, sort_keys=True) + "\n")
+    for n, w, tb in failed:
+        sys.stderr.write("translator: section %s failed: %s\n%s\n" % (n, w, tb))
     print(json.dumps(summary))
 
 
